@@ -135,7 +135,18 @@ def run(ctx):
                             example="a buffer whose trailing bytes also occur earlier in it")
         R.check("C04.3", "OWN", f2, "no content search on buffers", True, "")
     R.stat("method_calls_scanned", n_calls)
+    check_block_deser(ctx)
+    check_mine_block(ctx)
+    # the re-serialisation for the txid goes through the CompactSize writer and the tx layouts (shared with C05)
+    from . import c05 as _c05
+    _c05.check_writer(ctx, "C04.5")
+    _c05.check_writers_layout(ctx, "C04.5")
+    _c05.check_readers_layout(ctx, "C04.5")
+    _c05.check_tx_deser(ctx, "C04.5")
 
+
+def check_block_deser(ctx, oid="C04.4"):
+    R = ctx.R
     # C04.4 block_deser
     fb = ctx.fn("bits.blockchain.block_deser")
     evb = ctx.evaluator(opaque=OPAQUE | {"bits.tx.tx_deser", "bits.blockchain.block_header_deser"})
@@ -150,22 +161,25 @@ def run(ctx):
                 item = T("proj", (call, 0))
                 if any(tm.contains(v2, lambda t: tm.veq(t, item)) for k2, v2 in lp.body.items() if k2 != var):
                     threaded = (lp, var)
-    R.check("C04.4", "THREAD", fb, "transactions threaded through tx_deser(include_raw=True)", threaded is not None,
+    R.check(oid, "THREAD", fb, "transactions threaded through tx_deser(include_raw=True)", threaded is not None,
             "block_deser does not feed tx_deser the running remainder / collect its result")
     if threaded:
         lp, var = threaded
-        R.check("C04.4", "THREAD", fb, "first transaction parsed right after the count",
+        R.check(oid, "THREAD", fb, "first transaction parsed right after the count",
                 tm.veq(lp.init.get(var), pcs(tm.slc(blk, 80, None), 1)),
                 "transactions start at %s" % tm.show(lp.init.get(var))[:200])
     rets = sb.returns()
     cnt = pcs(tm.slc(blk, 80, None), 0)
     okc = bool(rets) and all(any(isinstance(f, T) and f.op == "cmp" and f.args[0] == "eq" and (
         tm.veq(f.args[2], cnt) or tm.veq(f.args[1], cnt)) for f in rules.all_facts(e)) for e in rets)
-    R.check("C04.4", "DOM", fb, "transaction count checked before returning", okc,
+    R.check(oid, "DOM", fb, "transaction count checked before returning", okc,
             "the success return of block_deser is not dominated by `len(txns) == declared count`")
     hdr_ok = bool(rets) and all(tm.contains(e.value, lambda t: tm.veq(t, tm.app("bits.blockchain.block_header_deser", [tm.slc(blk, None, 80)], ty=tm.DICT))) for e in rets)
-    R.check("C04.4", "TILE", fb, "header = first 80 bytes", hdr_ok, "block header is not block[:80]")
+    R.check(oid, "TILE", fb, "header = first 80 bytes", hdr_ok, "block header is not block[:80]")
 
+
+def check_mine_block(ctx, oid="C04.4"):
+    R = ctx.R
     # mine_block reads ids from tx_deser's result
     fm = ctx.fn("bits.integrations.mine_block")
     evm = ctx.evaluator(opaque=OPAQUE | {"bits.tx.tx_deser", "bits.blockchain.merkle_root", "bits.blockchain.block_header",
@@ -186,5 +200,5 @@ def run(ctx):
                     leaf_lists.setdefault(key, []).append(var)
                     want[key] = True
     for key, ok in want.items():
-        R.check("C04.4", "THREAD", fm, "mine_block collects %s from tx_deser's result" % key, ok,
+        R.check(oid, "THREAD", fm, "mine_block collects %s from tx_deser's result" % key, ok,
                 "mine_block does not take the %s of each transaction from tx_deser" % key)
